@@ -6,6 +6,8 @@ mod subtags;
 mod likely;
 mod gen;
 mod langid;
+mod locale;
+mod corpus;
 
 use common::*;
 
@@ -30,11 +32,15 @@ fn main() {
                 let n: u64 = args.get(i + 2).and_then(|s| s.parse().ok()).unwrap_or(1);
                 out.shard = (k, n.max(1));
             }
+            if let Some(i) = args.iter().position(|a| a == "--ops") {
+                out.ops = args.get(i + 1).map(|s| s.split(',').map(|x| x.to_string()).collect());
+            }
             let mut rng = Rng(seed ^ 0x5eed_0000_0000_0000);
             match suite {
                 "subtags" => subtags::run(&mut out, tier, &mut rng),
                 "likely" => likely::run(&mut out, tier, &mut rng),
                 "langid" => langid::run(&mut out, tier, &mut rng),
+                "locale" => locale::run(&mut out, tier, &mut rng),
                 _ => {
                     eprintln!("unknown suite {}", suite);
                     std::process::exit(2);
@@ -100,6 +106,20 @@ fn replay_one(out: &mut Out, op: &str, a: &[Vec<u8>]) {
         "lang_matches" => out.case(op, &refs, || langid::lang_matches(a0, a1, a2 == b"1", refs.get(3).copied().unwrap_or(&[]) == b"1")),
         "li_cmp" => out.case(op, &refs, || langid::li_cmp(a0, a1)),
         "li_eq_str" => out.case(op, &refs, || langid::li_eq_str(a0, a1)),
+        "locale" => out.case(op, &refs, || locale::locale(a0)),
+        "loc_canonicalize" => out.case(op, &refs, || locale::loc_canonicalize(a0)),
+        "loc_roundtrip" => out.case(op, &refs, || locale::loc_roundtrip(a0)),
+        "extmap" => out.case(op, &refs, || locale::extmap(a0)),
+        "ext_type" => out.case(op, &refs, || locale::ext_type(a0)),
+        "both" => out.case(op, &refs, || locale::both(a0)),
+        "loc_conv" => out.case(op, &refs, || locale::loc_conv(a0)),
+        "loc_into_parts" => out.case(op, &refs, || locale::loc_into_parts(a0)),
+        "loc_matches" => out.case(op, &refs, || locale::loc_matches(a0, a1, a2 == b"1", refs.get(3).copied().unwrap_or(&[]) == b"1")),
+        "loc_cmp" => out.case(op, &refs, || locale::loc_cmp(a0, a1)),
+        "loc_hist" => out.case(op, &refs, || locale::loc_hist(&refs)),
+        "big" => out.case(op, &refs, || locale::big(a0, a1)),
+        "loc_meta" => out.case(op, &refs, || locale::loc_meta(a0, a1)),
+        "li_meta" => out.case(op, &refs, || locale::li_meta(a0, a1)),
         "maximize" => out.case(op, &refs, || likely::maximize(a0, a1, a2)),
         "minimize" => out.case(op, &refs, || likely::minimize(a0, a1, a2)),
         "li_maximize" => out.case(op, &refs, || likely::li_change(a0, true)),
